@@ -127,7 +127,7 @@ def rule_surface(env, shared):
         w = env.world_of(owner)
         n += 1
         hits = []
-        for e in env.flat_events(b, sa, w):
+        for e in env.flat_events(b, sa, w, own_closures=True):
             if e.kind == "call":
                 ck = e.callee.key
                 mdl = e.info.get("model")
